@@ -343,6 +343,25 @@ theorem C04_stateless_independent (c : Cfg) (ops : List Op) (op : Op) (hm : c.mo
 theorem C04_id_source : Mcp.Gen.sessionIdBytes ≥ 16 ∧ Mcp.Gen.sessionIdFromCryptoRand = true ∧
     Mcp.Gen.sessionIdHexEncoded = true := by decide
 
+private theorem deletes_of_dead (c : Cfg) (hm : c.mode = .stateful) (s : Sid) (k : Nat) (st : St) (hs : s ∉ st.live) :
+    run c st (List.replicate k (.delete (.sid s))) = (st, List.replicate k ⟨404, none, []⟩) := by
+  induction k with
+  | zero => rfl
+  | succ k ih =>
+    have h1 : step c st (.delete (.sid s)) = (st, ⟨404, none, []⟩) := by simp [step, stepDelete, hm, hs]
+    simp [List.replicate_succ, run, h1, ih]
+
+/-- Overlapping DELETEs of one live id (the table operation being atomic, any overlap is some order of the same
+    operation): exactly one of them ends the session (200), every other one bears an already deleted id (404). -/
+theorem C04_overlapping_deletes (c : Cfg) (hm : c.mode = .stateful) (st : St) (s : Sid) (hl : s ∈ st.live) (k : Nat) :
+    (run c st (List.replicate (k + 1) (.delete (.sid s)))).2.map (·.status) = 200 :: List.replicate k 404 := by
+  have h1 : step c st (.delete (.sid s)) =
+      ({ st with live := st.live.filter (· ≠ s), streams := st.streams.filter (· ≠ s) },
+       ⟨200, none, if s ∈ st.streams then [s] else []⟩) := by simp [step, stepDelete, hm, hl]
+  have hd : s ∉ ({ st with live := st.live.filter (· ≠ s), streams := st.streams.filter (· ≠ s) } : St).live := by simp
+  have h2 := deletes_of_dead c hm s k _ hd
+  simp only [List.replicate_succ, run, h1, h2, List.map_cons, List.map_replicate]
+
 /-- Every method that touches the session table does so in ONE critical section of the manager's mutex, writers holding
     it exclusively (regenerated): "is the id live?" and "delete it" / "insert it" are one atomic step, which is what lets
     the model treat POST / GET / DELETE as atomic steps over the live set even when requests of several clients overlap
